@@ -61,6 +61,83 @@ theorem C07_items_carry_original (o : Filter.Opts) (lines : List Str) :
         · subst h; simp
         · exact List.mem_cons_of_mem _ (ih _ _ it h)
 
+/-- Every element of a successful `mapM` in `Option` comes from an element of the list. -/
+theorem mem_of_mapM_some {α β : Type} (f : α → Option β) : ∀ (l : List α) (rs : List β), l.mapM f = some rs →
+    ∀ r ∈ rs, ∃ a ∈ l, f a = some r := by
+  intro l
+  induction l with
+  | nil => intro rs h r hr; simp at h; subst h; cases hr
+  | cons a l ih =>
+    intro rs h r hr
+    rw [← List.mapM'_eq_mapM] at h
+    simp only [List.mapM'_cons, bind, Option.bind, pure] at h
+    cases hfa : f a with
+    | none => simp [hfa] at h
+    | some b =>
+      simp only [hfa] at h
+      cases hl : List.mapM' f l with
+      | none => simp [hl] at h
+      | some bs =>
+        simp only [hl, Option.some.injEq] at h
+        subst h
+        rcases List.mem_cons.mp hr with rfl | hr'
+        · exact ⟨a, List.mem_cons_self, hfa⟩
+        · obtain ⟨a', ha', hfa'⟩ := ih bs (by rw [← List.mapM'_eq_mapM]; exact hl) r hr'
+          exact ⟨a', List.mem_cons_of_mem _ ha', hfa'⟩
+
+/-- **Filter mode prints input records, nothing else.** Whatever the query, the options (sorting,
+    --tac, --tail, --nth / --with-nth, criteria) and the match functions do, every record `fzf
+    --filter` prints is one of the input records, byte for byte, under the number it has in the
+    input — never the transformed display text, never a fragment. -/
+theorem C07_filter_prints_originals (o : Filter.Opts) (slabCap : Nat) (query : Str) (lines : List Str)
+    (out : List (Nat × Str)) (h : Filter.runIdx o slabCap query lines = some out) :
+    ∀ p ∈ out, p.2 ∈ lines := by
+  have hitems := C07_items_carry_original o lines
+  have hsub : ∀ it ∈ (if o.tail > 0 ∧ !(!o.sort && !o.tac) then lastN o.tail (Filter.buildItems o lines) else Filter.buildItems o lines),
+      it.orig ∈ lines := by
+    intro it hit
+    split at hit
+    · exact hitems it (List.mem_of_mem_drop hit)
+    · exact hitems it hit
+  unfold Filter.runIdx at h
+  simp only at h
+  generalize (if o.tail > 0 ∧ !(!o.sort && !o.tac) then lastN o.tail (Filter.buildItems o lines) else Filter.buildItems o lines) = items at h hsub
+  split at h
+  · simp only [Option.some.injEq] at h
+    subst h
+    intro p hp
+    simp only [List.mem_map] at hp
+    obtain ⟨it, hit, rfl⟩ := hp
+    have : it ∈ items := by
+      split at hit
+      · exact List.mem_reverse.mp hit
+      · exact hit
+    exact hsub it this
+  · split at h
+    · cases h
+    · rename_i rs hrs
+      simp only [Option.some.injEq] at h
+      subst h
+      intro p hp
+      simp only [List.mem_map] at hp
+      obtain ⟨e, he, rfl⟩ := hp
+      have hems : e ∈ rs.filterMap id := by
+        split at he
+        · exact (List.mergeSort_perm _ _).subset he
+        · split at he
+          · exact List.mem_reverse.mp he
+          · exact he
+      simp only [List.mem_filterMap, id] at hems
+      obtain ⟨oe, hoe, rfl⟩ := hems
+      -- every scored entry comes from an item
+      obtain ⟨it, hit, hval⟩ := mem_of_mapM_some _ _ _ hrs (some e) hoe
+      have hin := hsub it hit
+      split at hval
+      · cases hval
+      · cases hval
+      · simp only [Option.some.injEq] at hval
+        rw [← hval]; exact hin
+
 example : exitOutput true (fun i => [97 + i]) [113] { results := [0, 1], selected := [1, 0], outcome := some .accept }
     = (0, [[113], [98], [97]]) := by decide
 
